@@ -140,63 +140,126 @@ fn empties(m: &Model, ctx: &mut Ctx, consts: &dyn Fn(&str) -> Option<Val>) {
             ctx.fail_closed("C10.empty", "generate_value: dispatch match not found");
         }
     }
-    // generate_tld
-    let ev = Evaluator { consts, call_hook: &crate::eval::no_hook, inline: None };
+    // generate_tld / generate_type evaluated whole, per variant: the sub-generators are symbolic (`<generate_x>`), so the
+    // result says whether the definition is generated, reported (Err) or silent (empty Ok)
+    let gen_hook = |_: &Evaluator, name: &str, _a: &[Val]| -> Option<Result<Val, String>> {
+        if name.starts_with(".generate_") {
+            return Some(Ok(Val::Ctor("Ok".into(), vec![Val::Sym(format!("<{}>", &name[1..]))], BTreeMap::new())));
+        }
+        match name {
+            "TokenStream::new" | "String::new" => Some(Ok(Val::Sym(String::new()))),
+            ".type_mismatch_error" => Some(Ok(Val::Ctor("Err".into(), vec![Val::Sym("mismatch".into())], BTreeMap::new()))),
+            _ => None,
+        }
+    };
+    #[derive(PartialEq, Debug)]
+    enum Outcome { Generated, Reported, Silent }
+    let classify = |v: &Val| -> Option<Outcome> {
+        match v {
+            Val::Ctor(ok, p, _) if ok == "Ok" => match p.first() {
+                Some(Val::Sym(s)) | Some(Val::Str(s)) => Some(if s.trim().is_empty() { Outcome::Silent } else { Outcome::Generated }),
+                _ => None,
+            },
+            Val::Ctor(e, _, _) if e == "Err" => Some(Outcome::Reported),
+            _ => None,
+        }
+    };
+    let ev = Evaluator { consts, call_hook: &gen_hook, inline: None };
+    let first_param = |f: &FnInfo| f.sig.inputs.iter().filter_map(|a| match a { syn::FnArg::Typed(t) => Some(tok(&t.pat)), _ => None }).next().unwrap_or("tld".into());
     if let Some(f) = anchor_fn(m, ctx, "C10.empty", Some("Rasn"), "generate_tld", None) {
-        if let Some(mt) = model::matches_in(&f.block).into_iter().find(|mt| tok(&mt.expr) == "tld") {
-            for v in &tlds.variants {
-                ctx.oblige("C10.empty", &format!("generate_tld:{}", v), true);
-                match ev.select_arm(&mt, &variant_val(tlds, v), &Env::new()) {
-                    Ok((i, _)) => {
-                        let body = tok(&mt.arms[i].body);
-                        let empty = is_empty_result(&body);
-                        let allowed = v == "Class";
-                        if empty && !allowed {
-                            ctx.violate("C10.empty", &format!("generate_tld:{}", v), &f.file, span_line(&mt.arms[i]), &format!("a top-level {} definition produces no output and no warning", v));
-                        }
-                        if v == "Object" {
-                            // nested match: sets are generated, plain objects are silent (documented)
-                            if !(body.contains("ASN1Information::ObjectSet(_)=>self.generate_information_object_set(o)") && body.contains("ASN1Information::Object(_)=>Ok(TokenStream::new())")) {
-                                ctx.violate("C10.empty", "generate_tld:Object-split", &f.file, span_line(&mt.arms[i]), "objects: only plain information objects are silent; object sets must be generated");
-                            }
-                        }
-                        if v == "Macro" && !body.contains("Err(") {
-                            ctx.violate("C10.empty", "generate_tld:Macro", &f.file, span_line(&mt.arms[i]), "a MACRO definition must be reported (warning), it is not a documented silent category");
-                        }
-                    }
-                    Err(e) => ctx.fail_closed("C10.empty", &e),
+        let param = first_param(f);
+        let info = |kind: &str| {
+            let mut t = BTreeMap::new();
+            t.insert("name".to_string(), Val::Str("o".into()));
+            t.insert("value".to_string(), Val::Ctor(kind.into(), vec![Val::Opaque("payload".into())], BTreeMap::new()));
+            Val::Ctor("Object".into(), vec![Val::Ctor("ToplevelInformationDefinition".into(), vec![], t)], BTreeMap::new())
+        };
+        let mut scenarios: Vec<(String, Val, Vec<Outcome>, &str)> = vec![];
+        for v in &tlds.variants {
+            match v.as_str() {
+                "Object" => {
+                    scenarios.push(("Object-split".into(), info("ObjectSet"), vec![Outcome::Generated, Outcome::Reported], "objects: only plain information objects are silent; object sets must be generated"));
+                    scenarios.push(("Object".into(), info("Object"), vec![Outcome::Generated, Outcome::Reported, Outcome::Silent], ""));
                 }
+                "Class" => scenarios.push((v.clone(), variant_val(tlds, v), vec![Outcome::Generated, Outcome::Reported, Outcome::Silent], "")),
+                "Macro" => scenarios.push((v.clone(), variant_val(tlds, v), vec![Outcome::Reported, Outcome::Generated], "a MACRO definition must be reported (warning), it is not a documented silent category")),
+                _ => scenarios.push((v.clone(), variant_val(tlds, v), vec![Outcome::Generated, Outcome::Reported], "")),
+            }
+        }
+        for (key, val, allowed, why) in scenarios {
+            ctx.oblige("C10.empty", &format!("generate_tld:{}", key), true);
+            let mut env = Env::new();
+            env.insert("self".into(), Val::ctor("Rasn"));
+            env.insert(param.clone(), val);
+            match ev.eval_fn_body(&f.block, &mut env).map(|v| (classify(&v), v)) {
+                Ok((Some(o), _)) => {
+                    if !allowed.contains(&o) {
+                        let why = if why.is_empty() { format!("a top-level {} definition produces no output and no warning", key) } else { why.to_string() };
+                        ctx.violate("C10.empty", &format!("generate_tld:{}", key), &f.file, f.line, &why);
+                    }
+                }
+                Ok((None, v)) => ctx.fail_closed("C10.empty", &format!("generate_tld:{}: result {}", key, v.show().chars().take(100).collect::<String>())),
+                Err(e) => ctx.fail_closed("C10.empty", &format!("generate_tld:{}: {}", key, e)),
             }
         }
     }
-    // generate_type: no arm may be empty; the only silent early return is the parameterized-template test
+    // generate_type: an ordinary (non-template) assignment of every kind is generated or reported, never silent — whatever
+    // early returns the function has (the template case is decided by template_guard)
     if let Some(f) = anchor_fn(m, ctx, "C10.empty", Some("Rasn"), "generate_type", None) {
-        if let Some(mt) = model::matches_in(&f.block).into_iter().find(|mt| tok(&mt.expr) == "tld.ty") {
-            for v in &types.variants {
-                ctx.oblige("C10.empty", &format!("generate_type:{}", v), true);
-                match ev.select_arm(&mt, &variant_val(types, v), &Env::new()) {
-                    Ok((i, _)) => {
-                        if is_empty_result(&tok(&mt.arms[i].body)) {
-                            ctx.violate("C10.empty", &format!("generate_type:{}", v), &f.file, span_line(&mt.arms[i]), &format!("a type assignment of kind {} produces no output and no warning", v));
-                        }
-                    }
-                    Err(e) => ctx.fail_closed("C10.empty", &e),
-                }
+        let param = first_param(f);
+        for v in &types.variants {
+            ctx.oblige("C10.empty", &format!("generate_type:{}", v), true);
+            let mut t = BTreeMap::new();
+            t.insert("name".to_string(), Val::Str("T".into()));
+            t.insert("parameterization".to_string(), Val::none());
+            t.insert("ty".to_string(), variant_val(types, v));
+            let mut env = Env::new();
+            env.insert("self".into(), Val::ctor("Rasn"));
+            env.insert(param.clone(), Val::Ctor("ToplevelTypeDefinition".into(), vec![], t));
+            match ev.eval_fn_body(&f.block, &mut env).map(|v| (classify(&v), v)) {
+                Ok((Some(Outcome::Silent), _)) => ctx.violate("C10.empty", &format!("generate_type:{}", v), &f.file, f.line, &format!("a type assignment of kind {} produces no output and no warning", v)),
+                Ok((Some(_), _)) => {}
+                Ok((None, r)) => ctx.fail_closed("C10.empty", &format!("generate_type:{}: result {}", v, r.show().chars().take(100).collect::<String>())),
+                Err(e) => ctx.fail_closed("C10.empty", &format!("generate_type:{}: {}", v, e)),
             }
         }
-        let b = tok(&f.block);
-        let returns_empty = b.matches("Ok(TokenStream::new())").count();
-        ctx.oblige("C10.empty", "generate_type:early-returns", true);
-        if returns_empty != 1 || !b.contains("if tld.parameterization.is_some(){return Ok(TokenStream::new());}") {
-            ctx.violate("C10.empty", "generate_type:early-returns", &f.file, f.line, &format!("generate_type has {} empty results; the only documented silent case is a parameterized template", returns_empty));
-        }
     }
-    // information object sets: silent only under opaque_open_types
+    // information object sets: silent only under opaque_open_types — every empty result of the function sits under an
+    // `if` whose condition is false when the option is off
     if let Some(f) = anchor_fn(m, ctx, "C10.empty", Some("Rasn"), "generate_information_object_set", None) {
         ctx.oblige("C10.empty", "object-set:opaque-only", true);
-        let b = tok(&f.block);
-        if b.matches("Ok(TokenStream::new())").count() != 1 || !b.contains("if self.config.opaque_open_types{return Ok(TokenStream::new());}") {
-            ctx.violate("C10.empty", "object-set:opaque-only", &f.file, f.line, "an object set may be silent only when opaque_open_types is set");
+        struct Ifs { out: Vec<syn::ExprIf> }
+        impl model::DeepCb for Ifs {
+            fn expr(&mut self, e: &syn::Expr) {
+                if let syn::Expr::If(i) = e {
+                    self.out.push(i.clone());
+                }
+            }
+        }
+        let mut ifs = Ifs { out: vec![] };
+        model::deep_walk_block(&f.block, &mut ifs);
+        let empties = |t: &str| t.matches("Ok(TokenStream::new())").count() + t.matches("Ok(TokenStream::default())").count() + t.matches("Ok(quote!())").count() + t.matches("Ok(Default::default())").count();
+        let total = empties(&tok(&f.block));
+        let mut guarded = 0;
+        for i in &ifs.out {
+            let n = empties(&tok(&i.then_branch));
+            if n == 0 {
+                continue;
+            }
+            let mut cfg = BTreeMap::new();
+            cfg.insert("opaque_open_types".to_string(), Val::Bool(false));
+            let mut me = BTreeMap::new();
+            me.insert("config".to_string(), Val::Ctor("Config".into(), vec![], cfg));
+            let mut env = Env::new();
+            env.insert("self".into(), Val::Ctor("Rasn".into(), vec![], me));
+            match ev.eval(&i.cond, &mut env) {
+                Ok(Val::Bool(false)) => guarded += n,
+                Ok(_) => {}
+                Err(_) => {}
+            }
+        }
+        if total == 0 || guarded != total {
+            ctx.violate("C10.empty", "object-set:opaque-only", &f.file, f.line, &format!("an object set may be silent only when opaque_open_types is set ({} of {} empty result(s) are behind that option)", guarded, total));
         }
     }
     // typescript
@@ -511,41 +574,107 @@ fn local(m: &Model, ctx: &mut Ctx, consts: &dyn Fn(&str) -> Option<Val>) {
             }
         }
     }
-    // validate(): per-definition, keeps going
+    // validate(): evaluated on three definitions (valid, invalid, valid) after a link() that already produced a warning
     if let Some(f) = anchor_fn(m, ctx, "C10.local", Some("Validator"), "validate", None) {
         ctx.oblige("C10.local", "validate-fold", true);
-        let b = tok(&f.block);
-        if !(b.contains("match tld.validate(){Ok(_)=>tlds.push(tld),Err(e)=>errors.push(e.into()),}")) {
-            ctx.violate("C10.local", "validate-fold", &f.file, f.line, "validate() must keep a valid definition, turn an invalid one into exactly one warning, and continue");
+        let ok = |v: Val| Val::Ctor("Ok".into(), vec![v], BTreeMap::new());
+        let hook = |_: &Evaluator, name: &str, a: &[Val]| -> Option<Result<Val, String>> {
+            match name {
+                ".link" if a.len() == 1 => Some(Ok(Val::Ctor("Ok".into(), vec![Val::Tuple(vec![a[0].clone(), Val::List(vec![Val::Sym("W-link".into())])])], BTreeMap::new()))),
+                ".validate" if a.len() == 1 => Some(Ok(match &a[0] {
+                    Val::Sym(s) if s.starts_with("bad") => Val::Ctor("Err".into(), vec![Val::Sym(format!("E-{}", s))], BTreeMap::new()),
+                    _ => Val::Ctor("Ok".into(), vec![Val::Unit], BTreeMap::new()),
+                })),
+                ".into" if a.len() == 1 => Some(Ok(a[0].clone())),
+                _ => None,
+            }
+        };
+        let _ = ok;
+        let ev = Evaluator { consts, call_hook: &hook, inline: None };
+        let mut tl = crate::eval::new_map();
+        for (k, v) in [("a", "good1"), ("b", "bad1"), ("c", "good2")] {
+            tl = crate::eval::map_insert(tl, Val::Str(k.into()), Val::Sym(v.into()));
         }
-    }
-    // internal_compile: the warnings of every generated module and of the validator reach the result unconditionally
-    if let Some(f) = anchor_fn(m, ctx, "C10.local", None, "internal_compile", None) {
-        ctx.oblige("C10.local", "module-warnings-unconditional", true);
-        // the `for (_, module) in modules { .. }` loop
-        let mut ok_loop = false;
-        let mut ok_validator = false;
-        for st in &f.block.stmts {
-            if let syn::Stmt::Expr(syn::Expr::ForLoop(fl), _) = st {
-                if tok(&fl.body).contains("generate_module(") {
-                    ok_loop = fl.body.stmts.iter().any(|s| tok(s) == "warnings.append(&mut generated_module.warnings);");
+        let mut me = BTreeMap::new();
+        me.insert("tlds".to_string(), tl);
+        let mut env = Env::new();
+        env.insert("self".into(), Val::Ctor("Validator".into(), vec![], me));
+        match ev.eval_fn_body(&f.block, &mut env) {
+            Ok(Val::Ctor(okc, p, _)) if okc == "Ok" && matches!(p.first(), Some(Val::Tuple(t)) if t.len() == 2) => {
+                let Some(Val::Tuple(t)) = p.first() else { unreachable!() };
+                let kept = t[0].show().replace(' ', "");
+                let warns = t[1].show().replace(' ', "");
+                let kept_ok = kept.contains("good1") && kept.contains("good2") && !kept.contains("bad1");
+                let warns_ok = warns.matches("E-bad1").count() == 1 && warns.contains("W-link") && !warns.contains("good");
+                if !(kept_ok && warns_ok) {
+                    ctx.violate("C10.local", "validate-fold", &f.file, f.line, &format!("validate() on the definitions good1, bad1, good2 (link() having warned once) keeps {} with the warnings {}: it must keep a valid definition, turn an invalid one into exactly one warning, keep the linker's warnings, and continue", kept, warns));
                 }
             }
-            if tok(st) == "warnings.append(&mut validator_errors);" {
-                ok_validator = true;
-            }
+            Ok(o) => ctx.fail_closed("C10.local", &format!("[validate]: result {}", o.show().chars().take(120).collect::<String>())),
+            Err(e) => ctx.fail_closed("C10.local", &format!("[validate]: {}", e)),
         }
-        if !ok_loop {
-            ctx.violate("C10.local", "module-warnings-unconditional", &f.file, f.line,
-                "internal_compile must append the warnings of every generated module unconditionally (a direct statement of the per-module loop): warnings of a module that produced no output would otherwise vanish");
-        }
+    }
+    // internal_compile evaluated with no sources to read, a validator that yields two modules' definitions and one
+    // warning, and a backend whose second module produces no text but a warning
+    if let Some(f) = anchor_fn(m, ctx, "C10.local", None, "internal_compile", None) {
+        ctx.oblige("C10.local", "module-warnings-unconditional", true);
         ctx.oblige("C10.local", "validator-warnings-unconditional", true);
-        if !ok_validator {
-            ctx.violate("C10.local", "validator-warnings-unconditional", &f.file, f.line, "internal_compile must append the validator's warnings unconditionally");
-        }
         ctx.oblige("C10.local", "result-carries-warnings", true);
-        if !tok(&f.block).contains("Ok(CompileResult{generated:generated_modules.join(\"\\n\"),warnings,})") {
-            ctx.violate("C10.local", "result-carries-warnings", &f.file, f.line, "internal_compile must return the collected warnings with the generated text");
+        let okv = |v: Val| Val::Ctor("Ok".into(), vec![v], BTreeMap::new());
+        let hook = |_: &Evaluator, name: &str, a: &[Val]| -> Option<Result<Val, String>> {
+            match name {
+                "Validator::new" => Some(Ok(Val::ctor("Validator"))),
+                ".validate" if a.len() == 1 => Some(Ok(okv(Val::Tuple(vec![Val::List(vec![Val::Sym("tld-m1".into()), Val::Sym("tld-m2".into())]), Val::List(vec![Val::Sym("W-validator".into())])])))),
+                // the grouping by module is C11/C12's business: two modules
+                "list.fold" if a.first().map(|r| r.show().contains("tld-m1")).unwrap_or(false) => {
+                    let mut mp = crate::eval::new_map();
+                    mp = crate::eval::map_insert(mp, Val::Str("M1".into()), Val::List(vec![Val::Sym("tld-m1".into())]));
+                    mp = crate::eval::map_insert(mp, Val::Str("M2".into()), Val::List(vec![Val::Sym("tld-m2".into())]));
+                    Some(Ok(mp))
+                }
+                ".generate_module" if a.len() == 2 => {
+                    let which = a[1].show();
+                    let mut g = BTreeMap::new();
+                    if which.contains("tld-m1") {
+                        g.insert("generated".to_string(), Val::some(Val::Str("TEXT-M1".into())));
+                        g.insert("warnings".to_string(), Val::List(vec![Val::Sym("W-m1".into())]));
+                    } else {
+                        g.insert("generated".to_string(), Val::none());
+                        g.insert("warnings".to_string(), Val::List(vec![Val::Sym("W-m2".into())]));
+                    }
+                    Some(Ok(okv(Val::Ctor("GeneratedModule".into(), vec![], g))))
+                }
+                _ => None,
+            }
+        };
+        let ev = Evaluator { consts, call_hook: &hook, inline: None };
+        let mut st = BTreeMap::new();
+        st.insert("sources".to_string(), Val::List(vec![]));
+        let mut me = BTreeMap::new();
+        me.insert("state".to_string(), Val::Ctor("CompilerReady".into(), vec![], st));
+        me.insert("backend".to_string(), Val::ctor("Backend"));
+        let mut env = Env::new();
+        env.insert("self".into(), Val::Ctor("Compiler".into(), vec![], me));
+        match ev.eval_fn_body(&f.block, &mut env) {
+            Ok(Val::Ctor(okc, p, _)) if okc == "Ok" && matches!(p.first(), Some(Val::Ctor(c, _, _)) if c == "CompileResult") => {
+                let Some(Val::Ctor(_, _, fields)) = p.first() else { unreachable!() };
+                let warns = fields.get("warnings").map(|v| v.show()).unwrap_or_default();
+                let text = fields.get("generated").map(|v| v.show()).unwrap_or_default();
+                for (w, key, msg) in [
+                    ("W-m1", "module-warnings-unconditional", "the warnings of a generated module"),
+                    ("W-m2", "module-warnings-unconditional", "the warnings of a module that produced no output"),
+                    ("W-validator", "validator-warnings-unconditional", "the validator's warnings"),
+                ] {
+                    if warns.matches(w).count() != 1 {
+                        ctx.violate("C10.local", key, &f.file, f.line, &format!("internal_compile: {} must reach the result exactly once (result warnings: {})", msg, warns));
+                    }
+                }
+                if !text.contains("TEXT-M1") {
+                    ctx.violate("C10.local", "result-carries-warnings", &f.file, f.line, &format!("internal_compile must return the generated text with the collected warnings (generated: {})", text));
+                }
+            }
+            Ok(o) => ctx.fail_closed("C10.local", &format!("[internal_compile]: result {}", o.show().chars().take(160).collect::<String>())),
+            Err(e) => ctx.fail_closed("C10.local", &format!("[internal_compile]: {}", e)),
         }
     }
     // a backend that generated nothing for a module still returns that module's warnings
